@@ -248,9 +248,16 @@ def WB.addText (b : WB) (m : WS) (mainTag wrapTag : Tag) (cs : List Ch) : Except
 
 def WB.addElement (b : WB) (e : Elt) : WB := { b with word := b.word ++ [e] }
 
+/-- markers left alone on the current line (a line without text is never flushed) are kept at the end of the last
+    finished line (fix 1a5345d; before it they were dropped) -/
+def rescueMarks (text : List TLine) (line : TLine) : List TLine :=
+  match text.getLast? with
+  | some last => text.dropLast ++ [last ++ line]
+  | none => text
+
 /-- into_lines -/
 def WB.finish (b : WB) : Except Err (List TLine) :=
-  andThen (b.flushWord .normal) fun b' => .ok b'.flushLine.text
+  andThen (b.flushWord .normal) fun b' => .ok (rescueMarks b'.flushLine.text b'.flushLine.line)
 
 def WB.textLen (b : WB) : Nat := b.text.length + b.linelen + b.wordlen
 
